@@ -1051,8 +1051,57 @@ pub fn size_sweep_records() -> Vec<RefRR> {
 pub fn dictionary_labels() -> Vec<&'static str> {
     vec![
         "local", "LOCAL", "Local", "arpa", "ARPA", "in-addr", "IN-ADDR", "ip6", "254", "169", "8", "e", "f", "b", "0", "_tcp", "_udp", "_services", "_dns-sd", "_sub", "_http", "localhost", "home", "invalid", "test", "onion",
-        "example", "com", "www", "xn--nxasmq6b", "*", "_",
+        "example", "com", "www", "xn--nxasmq6b", "*", "_", "My\\032Printer", "\\065", "\\046", "a\\.b", "\\255x", "\\256", "My Printer", "a b",
     ]
+}
+
+/// Text with a multi-byte character (or an invalid byte) at every byte offset 0..=24: a run of
+/// ASCII, then e-acute / euro sign / an emoji / 0xff / a lone lead byte, then a short tail.
+pub fn alignment_strings() -> Vec<Vec<u8>> {
+    let mut out = Vec::new();
+    for k in 0..=24usize {
+        for mid in [&"é".as_bytes()[..], "€".as_bytes(), "😀".as_bytes(), &[0xff][..], &[0xc3][..]] {
+            for tail in [&b""[..], b"gh", b"@example.org"] {
+                let mut s = vec![b'a' + (k % 26) as u8; k];
+                s.extend_from_slice(mid);
+                s.extend_from_slice(tail);
+                out.push(s);
+            }
+        }
+    }
+    out
+}
+
+/// EDNS option payloads with an inner structure (family / prefix / address as in RFC 7871,
+/// length-prefixed as in other options): for every assigned option code 0..=20 and 65001,
+/// payloads of every length 0..=24 starting with 00 01 / 00 02 / 00 00 / ff ff and a third byte
+/// from a set of prefix lengths.
+pub fn structured_options() -> Vec<(u16, B)> {
+    let mut out = Vec::new();
+    for code in (0u16..=20).chain([65001u16]) {
+        for len in 0..=24usize {
+            for head in [[0u8, 1], [0, 2], [0, 0], [0xff, 0xff]] {
+                for third in [0u8, 1, 7, 8, 19, 20, 24, 32, 33, 60, 64, 128, 129, 255] {
+                    // the full product for the client-subnet code and its neighbours, a diagonal otherwise
+                    if !(7..=9).contains(&code) && (len + third as usize + head[1] as usize) % 5 != 0 {
+                        continue;
+                    }
+                    let mut d: Vec<u8> = Vec::with_capacity(len);
+                    for i in 0..len {
+                        d.push(match i {
+                            0 => head[0],
+                            1 => head[1],
+                            2 => third,
+                            3 => 0,
+                            _ => 0xc0u8.wrapping_add(i as u8 * 7),
+                        });
+                    }
+                    out.push((code, B(d)));
+                }
+            }
+        }
+    }
+    out
 }
 
 pub fn dictionary_names(max_labels: usize) -> Vec<RefName> {
@@ -1173,6 +1222,35 @@ pub fn large_messages() -> Vec<Vec<u8>> {
 pub fn type_pair_packets() -> Vec<RefPacket> {
     let base: Vec<RefRR> = SCHEMAS.iter().map(base_rr).collect();
     let mut out = Vec::new();
+    // a signature record next to the record set it covers (same owner and class, type_covered =
+    // the other record's type), the covered record twice so that its RDATA names repeat
+    if let Some(sig) = base.iter().find(|r| r.rdata.code() == 46) {
+        for b in base.iter() {
+            if b.rdata.code() == 46 {
+                continue;
+            }
+            for sig_first in [false, true] {
+                let mut s = sig.clone();
+                s.name = b.name.clone();
+                s.class = b.class;
+                if let RefRData::Typed { vals, .. } = &mut s.rdata {
+                    vals[0] = Val::U16(b.rdata.code());
+                }
+                let mut p = RefPacket { id: 0x7a1e, flags: F_QR | F_AA, ..Default::default() };
+                p.questions.push(RefQ { name: b.name.clone(), qtype: b.rdata.code(), qclass: 1, unicast: false });
+                if sig_first {
+                    p.answers.push(s.clone());
+                }
+                p.answers.push(b.clone());
+                p.answers.push(b.clone());
+                if !sig_first {
+                    p.answers.push(s.clone());
+                }
+                p.additional.push(b.clone());
+                out.push(p);
+            }
+        }
+    }
     for (ia, a) in base.iter().enumerate() {
         for (ib, b) in base.iter().enumerate() {
             let mut p = RefPacket { id: 0x7a1b, flags: F_QR | F_AA, ..Default::default() };
